@@ -19,7 +19,7 @@ def Y():
 
 
 def enc_opt_nat(v):
-    return "~" if v is None else str(v)
+    return "~" if v is None else "N" + str(v)
 
 
 def enc_bool(b):
